@@ -4,3 +4,4 @@ pub mod c12;
 pub mod c17;
 pub mod c19;
 pub mod c16;
+pub mod c11;
